@@ -66,9 +66,23 @@ func genB() *rapid.Generator[Case] {
 		b := &CaseB{Creator: rapid.SampledFrom([]string{"core", "core", "csv", "texttable"}).Draw(t, "creator")}
 		n := rapid.IntRange(2, max).Draw(t, "n")
 		for i := 0; i < n; i++ {
-			k := rapid.SampledFrom([]string{"op", "op", "op", "op", "rowerr", "reg", "reg", "render"}).Draw(t, "step")
+			k := rapid.SampledFrom([]string{"op", "op", "op", "op", "rowerr", "reg", "reg", "render", "cbrow"}).Draw(t, "step")
 			st := StepB{K: k}
 			switch k {
+			case "cbrow":
+				// a row of its own with callbacks of its own: made, given 1..3 failing callbacks in one slot, filled
+				// (each Add is one round of that slot), perhaps noted an error on, and only then attached
+				mk := rapid.SampledFrom([]string{"newrow", "newrowsized", "newrowcap"}).Draw(t, "cbrow-make")
+				b.Steps = append(b.Steps, StepB{K: "op", Op: &gen.Op{K: mk}})
+				b.Steps = append(b.Steps, StepB{K: "reg", Owner: "row", Ref: -1, When: rapid.SampledFrom([]int{0, 0, 0, 1, 3}).Draw(t, "cbrow-when"), Target: 1, N: rapid.IntRange(1, 3).Draw(t, "cbrow-n")})
+				if rapid.IntRange(0, 3).Draw(t, "cbrow-err-first") == 0 {
+					b.Steps = append(b.Steps, StepB{K: "rowerr", Ref: -1})
+				}
+				for a, adds := 0, rapid.IntRange(1, 3).Draw(t, "cbrow-adds"); a < adds; a++ {
+					b.Steps = append(b.Steps, StepB{K: "op", Op: &gen.Op{K: "rowadd", Ref: -1, Items: []gen.Item{item.Draw(t, "item")}}})
+				}
+				b.Steps = append(b.Steps, StepB{K: "op", Op: &gen.Op{K: "addrow", Ref: -1}})
+				continue
 			case "op":
 				op := gen.Op{K: rapid.SampledFrom([]string{"hdr", "rowitems", "rowitems", "sep", "appendnew", "newrow", "newrowsized", "rowadd", "rowadd", "rowadd", "addrow", "addrow", "zerorow"}).Draw(t, "kind")}
 				switch op.K {
@@ -95,6 +109,9 @@ func genB() *rapid.Generator[Case] {
 				st.Col = rapid.IntRange(0, 4).Draw(t, "col")
 				st.When = rapid.IntRange(0, 3).Draw(t, "when")
 				st.Target = rapid.IntRange(0, 2).Draw(t, "target")
+				if rapid.IntRange(0, 2).Draw(t, "many") == 0 {
+					st.N = rapid.IntRange(2, 4).Draw(t, "n")
+				}
 			case "render":
 				st.Via = rapid.SampledFrom([]string{"invoke", "csv", "texttable"}).Draw(t, "via")
 			}
